@@ -24,7 +24,7 @@ if b not in s:
     raise SystemExit('markers missing in DESIGN.md')
 s = s[:s.index(b) + len(b)] + '\n' + txt + '\n' + s[s.index(e):]
 missed = sum(1 for m in glob.glob(os.path.join(V, 'seeded', '*', 'meta.json')) if json.load(open(m)).get('missed_before_strengthening'))
-stats = 'Kept seeded changes: **%d** (three rounds: up to four per property in rounds 1-2, one more for ten properties in round 3); **%d** of them were missed by the rule set as it stood when the change arrived (or were caught only by a fail-closed anchor / floor or only under a neighbouring property) and led to a new or sharper rule; **all %d** are caught by the current checks (`bin/seed_regress.py` replays every kept patch against /repo and the checks named in its meta.json).' % (len(rows), missed, len(rows))
+stats = 'Kept seeded changes: **%d** (three rounds: up to four per property in rounds 1-2, one more for sixteen properties in round 3); **%d** of them were missed by the rule set as it stood when the change arrived (or were caught only by a fail-closed anchor / floor or only under a neighbouring property) and led to a new or sharper rule; **all %d** are caught by the current checks (`bin/seed_regress.py` replays every kept patch against /repo and the checks named in its meta.json).' % (len(rows), missed, len(rows))
 b2, e2 = '<!-- BEGIN seeded stats -->', '<!-- END seeded stats -->'
 if b2 in s:
     s = s[:s.index(b2) + len(b2)] + '\n' + stats + '\n' + s[s.index(e2):]
